@@ -28,6 +28,13 @@ InBandL(i, j, l1, l2, w) == /\ j >= i - Mx(0, l1 - l2) - w + 1
 JStart(i, l1, l2, w) == Mx(0, i - Mx(0, l1 - l2) - w + 1)
 JEnd(i, l1, l2, w) == Mn(l2, i + Mx(0, l2 - l1) + w)          \* one past the last column
 
+\* psi-relaxed corners (DTWCore.StartOK / EndOK) and the three steps of a warping path
+StartOKL(i, j, p1b, p2b) == (i = 0 /\ j <= p2b) \/ (j = 0 /\ i <= p1b)
+EndOKL(i, j, l1, l2, p1e, p2e) == (i = l1 - 1 /\ j >= l2 - 1 - p2e) \/ (j = l2 - 1 /\ i >= l1 - 1 - p1e)
+IsStepL(i, j, i2, j2) == \/ i2 = i + 1 /\ j2 = j + 1
+                         \/ i2 = i + 1 /\ j2 = j
+                         \/ i2 = i /\ j2 = j + 1
+
 \* ------------------------------------------------------------------ rolling buffer of dtw.distance
 RollLength(l1, l2, w) == Mn(l2 + 1, Ab(l1 - l2) + 2 * (w - 1) + 1 + 1 + 1)
 RollSkip(i, l1, l2, w) ==
